@@ -76,6 +76,17 @@ def run(ctx):
                 same_term(ob, leaf, E(2, 7), 'entropy(path) = HMAC-SHA512("bip-entropy-from-k", ser256(k at path))', fe.where)
             same_term(ob, ev.getattr(b, 'KEY', __import__('sa.evalr', fromlist=['Frame']).Frame(None, {}, Facts(), fe.module, None, 0)),
                       BIPKEY, 'HMAC key constant', fe.where)
+        # a master parsed from an extended private key stores 00||k: the same entropy must come out
+        with ctx.obligation('C12.HMAC', 'BIP85DeterministicEntropy.entropy (parsed master, key stored as 00||k)', be, fe.where) as ob:
+            m33, k33 = master_prv(layout='33')
+            c33 = T.obj_fields(m33)['chain_code']
+            b33 = T.obj(B85, dict(master_node=m33, testnet=S('testnet', type='bool')))
+            ev = Evaluator(p, be, summaries=summ)
+            v, f = ev.call_function('bip85.BIP85DeterministicEntropy.entropy', [b33, T.const("m/83696968'/2'/7'")])
+            cs, leaf = _the_normal_leaf(ob, v, 'entropy', fe.where)
+            if leaf is not None:
+                same_term(ob, leaf, spec_entropy(k33, c33, [T.const(ROOT), T.const(2), T.const(7)]),
+                          'entropy(path) for a master parsed from an xprv string', fe.where)
         # ------------------------------------------------------------ applications
         fm = p.get_function('bip85.BIP85DeterministicEntropy.bip39_mnemonic')
         with ctx.obligation('C12.BIP39', 'BIP85DeterministicEntropy.bip39_mnemonic', be, fm.where) as ob:
